@@ -86,6 +86,7 @@ def make_run(d, setup):
 
 
 def prep(d, nested, rng):
+    d.model_attr = 'state'
     d.qmode = 0
     d.queued = False
     d.kinds = {}
